@@ -234,3 +234,66 @@ package ctlog
 //@ census [C13] no-direct-file-writes: callers os.WriteFile within none in ctlog durable
 //@ census [C13] no-os-create: callers os.Create within none in ctlog durable
 //@ census [C13] rename-sites: callers os.Rename within durable.WriteFile in ctlog durable
+
+// ---- lock backends (C05, reduced form: each method issues exactly one atomic primitive with the right shape)
+
+//@ func ctlog.(*SQLiteBackend).Replace props C01 C05
+//@   requires b != nil && b.mu != nil && !held(b.mu)
+//@   init gExecs == 0
+//@   call sqlitex.Exec requires [C01,C05] compare-and-swap-statement: c_query == "UPDATE checkpoints SET body = ? WHERE logID = ? AND body = ?" && len(c_args) == 3 && c_args[0] == iface(new) && c_args[1] == iface(bytes(o.logID)) && c_args[2] == iface(o.body)
+//@   call sqlitex.Exec requires [C05] in-critical-section: held(b.mu) && gExecs == 0 && c_conn == b.conn
+//@   call sqlite.(*Conn).Changes requires [C05] same-critical-section: held(b.mu) && gExecs == 1 && c_recv == b.conn
+//@   returns [C01,C05] success-only-if-row-changed: ret1 == nil ==> gExecs == 1 && gLastChanges != 0 && err == nil
+//@   returns [C05] token-carries-new-value: ret1 == nil ==> typeof(ret0) == typeid("*ctlog.sqliteCheckpoint") && cast(ret0, "*ctlog.sqliteCheckpoint").body == new && cast(ret0, "*ctlog.sqliteCheckpoint").logID == o.logID
+//@   ensures [C05] unlocked: !held(b.mu) && gExecs <= 1
+
+//@ func ctlog.(*SQLiteBackend).Create props C05
+//@   requires b != nil && b.mu != nil && !held(b.mu)
+//@   init gExecs == 0
+//@   call sqlitex.Exec requires [C05] insert-if-absent-statement: c_query == "INSERT INTO checkpoints (logID, body) VALUES (?, ?)\n\t\tON CONFLICT(logID) DO NOTHING" && len(c_args) == 2 && c_args[0] == iface(bytes(logID)) && c_args[1] == iface(new) && held(b.mu)
+//@   returns [C05] success-only-if-inserted: ret == nil ==> gExecs == 1 && gLastChanges != 0
+//@   ensures [C05] unlocked: !held(b.mu)
+
+//@ func ctlog.(*SQLiteBackend).Fetch props C05
+//@   requires b != nil && b.mu != nil && !held(b.mu)
+//@   call sqlitex.Exec requires [C05] select-statement: c_query == "SELECT body FROM checkpoints WHERE logID = ?" && len(c_args) == 1 && c_args[0] == iface(bytes(logID)) && held(b.mu)
+//@   returns [C05] not-found-sentinel: ret1 != nil ==> (ret1 == err || ret1 == ErrLogNotFound)
+//@   returns [C05] found-value: ret1 == nil ==> typeof(ret0) == typeid("*ctlog.sqliteCheckpoint") && cast(ret0, "*ctlog.sqliteCheckpoint").body == body && cast(ret0, "*ctlog.sqliteCheckpoint").logID == logID
+
+//@ func ctlog.(*DynamoDBBackend).Replace props C05
+//@   requires b != nil
+//@   init gPutItems == 0
+//@   call dynamodb.(*Client).PutItem requires [C05] conditional-on-old-value: *c_params.ConditionExpression == "checkpoint = :old" && has(c_params.ExpressionAttributeValues, ":old") && cast(c_params.ExpressionAttributeValues[":old"], "*github.com/aws/aws-sdk-go-v2/service/dynamodb/types.AttributeValueMemberB").Value == o.body
+//@   call dynamodb.(*Client).PutItem requires [C05] writes-new-value-for-same-log: has(c_params.Item, "checkpoint") && cast(c_params.Item["checkpoint"], "*github.com/aws/aws-sdk-go-v2/service/dynamodb/types.AttributeValueMemberB").Value == new && cast(c_params.Item["logID"], "*github.com/aws/aws-sdk-go-v2/service/dynamodb/types.AttributeValueMemberB").Value == bytes(o.logID) && gPutItems == 0
+//@   returns [C05] success-only-if-put-succeeded: ret1 == nil ==> gPutItems == 1 && gPutItemOK
+//@   returns [C05] token-carries-new-value: ret1 == nil ==> cast(ret0, "*ctlog.dynamoDBCheckpoint").body == new && cast(ret0, "*ctlog.dynamoDBCheckpoint").logID == o.logID
+
+//@ func ctlog.(*DynamoDBBackend).Create props C05
+//@   requires b != nil
+//@   init gPutItems == 0
+//@   call dynamodb.(*Client).PutItem requires [C05] only-if-absent: *c_params.ConditionExpression == "attribute_not_exists(logID)" && cast(c_params.Item["checkpoint"], "*github.com/aws/aws-sdk-go-v2/service/dynamodb/types.AttributeValueMemberB").Value == new
+//@   returns [C05] success-only-if-put-succeeded: ret == nil ==> gPutItems == 1 && gPutItemOK
+
+//@ func ctlog.(*DynamoDBBackend).Fetch props C05
+//@   requires b != nil
+//@   call dynamodb.(*Client).GetItem requires [C05] consistent-read: c_params.ConsistentRead != nil && *c_params.ConsistentRead
+//@   returns [C05] not-found-sentinel: (ret1 != nil && err == nil) ==> ret1 == ErrLogNotFound
+//@   returns [C05] found-only-with-item: ret1 == nil ==> resp.Item != nil && err == nil
+
+//@ func ctlog.(*ETagBackend).Replace props C05
+//@   requires b != nil
+//@   init gPutObjects == 0
+//@   call s3.(*Client).PutObject requires [C05] same-key-one-conditional-option: *c_params.Key == o.key && len(c_optFns) == 1 && gPutObjects == 0
+//@   returns [C05] success-only-if-put-succeeded: ret1 == nil ==> gPutObjects == 1 && gPutObjectOK
+//@   returns [C05] token-carries-new-etag: ret1 == nil ==> cast(ret0, "*ctlog.eTagCheckpoint").body == new && cast(ret0, "*ctlog.eTagCheckpoint").key == o.key && cast(ret0, "*ctlog.eTagCheckpoint").eTag == *out.ETag
+
+//@ func ctlog.(*ETagBackend).Replace$1 props C05
+//@   call http.AddHeaderValue requires [C05] if-match-on-fetched-etag: c_header == "If-Match" && c_value == o.eTag
+
+//@ func ctlog.(*ETagBackend).Create$1 props C05
+//@   call http.AddHeaderValue requires [C05] if-match-empty: c_header == "If-Match" && c_value == ""
+
+//@ func ctlog.(*ETagBackend).Fetch props C05
+//@   requires b != nil
+//@   returns [C05] not-found-sentinel: gNoSuchKey ==> (ret1 != nil && Is(ret1, ErrLogNotFound))
+//@   returns [C05] found-with-etag: ret1 == nil ==> out.ETag != nil && cast(ret0, "*ctlog.eTagCheckpoint").eTag == *out.ETag && cast(ret0, "*ctlog.eTagCheckpoint").body == data
